@@ -94,6 +94,16 @@ CLAIMED = {
             "The same transaction runs K=30 (quick) / 200 (thorough) times on equal pre-state in fresh EVMs in one process; return data, gas, error, state root, logs, full call tree, balance journals, every Children/ChildrenIndices/IndicesOfChanges/ChildrenOf result in returned order and the complete hook dump must be byte-identical. An unrelated execution B (other EVM/state, possibly other extra EIPs on the same fork) run to completion in the middle of A's execution and afterwards must not change A's or B's answers; shared 256-bit constants are compared with their initial values after every case.",
             "Map-order dependence is sampled statistically (Go re-randomises per range statement); interleaving is at step granularity in one goroutine (true concurrency is C17).",
             "DESIGN.md §3 C16"),
+    "C03": ("exploration",
+            "hostile-input runtime monitoring in address-space-capped, journaling worker processes: panic/fatal-error detection at the entry-point boundary + post-condition assertions on hooked state (cursor, depth, static flag, follow-up Start) + read-cap sentinel",
+            "Random byte strings as code (biased to journal opcodes, Artela precompile calls, boundary pushes) x calldata x forks Frontier..Cancun x six entry points; for each journal opcode every operand position swept over boundary values 0..2^256-1 and memory-length-relative values, plus random combinations, under hostile memory and storage shapes (invalid encodings, lengths 2^12..2^64-1); every call kind to 0x64-0x66 from depth 1 and 3 with truncated/overflowing payloads; byte-mutated journal programs. No panic may escape, no worker may die, bookkeeping must be closed and a follow-up call announced as a depth-0 Start.",
+            "Initialised host as an embedding chain provides; a crash needing one specific 256-bit value outside the boundary sets and random draws is not found; one unbounded-loop finding is recorded as known.",
+            "DESIGN.md §3 C03"),
+    "C20": ("exploration",
+            "work-counter monitor at the host boundary: state reads (StateDB proxy) and allocated bytes (runtime TotalAlloc, sampled outside the recorder's own copies) per instruction against gas-proportional bounds, with a read-cap sentinel",
+            "Between consecutive instruction callbacks: state reads <= 16 + gas/20 and allocation <= 64 KiB + 64*gas + 4*memory, over C03's hostile generators (length fields 2^12..2^256-1 presented to journal instructions and Artela precompiles), single-instruction programs for every length-taking standard opcode with lengths 2^10..2^64 on 4 forks, and the standard gadget workload as the no-false-alarm control.",
+            "Hashing/copying work is observed through allocation and state reads; intervals in which the event log itself grows are not measured; the reference-journal length amplification is recorded as known findings.",
+            "DESIGN.md §3 C20"),
 }
 
 # Properties not (yet) claimed. Reason must be current.
